@@ -33,7 +33,7 @@ LABEL = re.compile(r'\[(C\d{2,3})\.([A-Za-z0-9_\-]+)\]')
 VERIF_FAIL = ('postcondition not satisfied', 'precondition not satisfied', 'assertion failed', 'invariant not satisfied',
               'decreases not satisfied', 'possible arithmetic', 'possible division by zero', 'possible bit shift',
               'termination', 'unreachable', 'failed to prove', 'could not prove', 'might fail', 'cannot show',
-              'loop invariant', 'assertion not satisfied', 'not satisfied')
+              'loop invariant', 'assertion not satisfied', 'not satisfied', 'unable to prove')
 
 
 def sh(cmd, **kw):
@@ -370,6 +370,8 @@ def main():
     t0 = time.time()
     os.makedirs(GEN, exist_ok=True)
     os.makedirs(REPLAY, exist_ok=True)
+    for old in glob.glob(os.path.join(REPLAY, prop + '-*.json')):
+        os.remove(old)
     units = units_for(prop)
     results = []
     with cf.ThreadPoolExecutor(max_workers=8) as ex:
